@@ -247,7 +247,7 @@ ASSUMES = ["A-PY", "A-INST", "A-RE", "A-DJ", "A-UTF8"]
 NOT_COVERED = [
     "the harvest loop of _process_dep_declarations, render_dependencies' marker removal and component_post_render's placeholder removal are not yet under contract",
     "Media merging (django.forms.Media) is a dependency; inherited Media is C16",
-    "composition to whole pages (which components render, how often) is argued in DESIGN, not machine-checked",
+    "composition to whole pages (which components render, how often, in which order) is covered only by the BOUNDED stand-in bounded#page_has_exactly_the_js_css_of_the_rendered_components_once_in_order (1060 pages, never counted as proved)",
 ]
 
 
@@ -264,3 +264,12 @@ def _replay_hash(model, ob):
         if not ok:
             return {"confirmed": True, "function": "hash_comp_cls + marker regexes", "inputs": {"class_name": name}, "expected": "marker recognised and decomposed", "observed": f"hash {h!r}: marker {marker!r} not recognised"}
     return {"confirmed": False}
+
+
+def _bounded_deps(tier, repo):
+    from harness.bounded_deps import run
+    return run(repo, 3)
+
+
+REG.bounded_check("bounded#page_has_exactly_the_js_css_of_the_rendered_components_once_in_order", P, _bounded_deps,
+                  note="the harvest loop of _process_dep_declarations and the render pipeline are not under contract: every page with <= 3 component uses over 3 classes (repeats, nesting through a slot) x 4 placeholder layouts is rendered for real and its scripts / styles / Media files compared with the rendered classes in order of first appearance")
